@@ -11,6 +11,7 @@ import (
 	"encoding/hex"
 	"fmt"
 	"io"
+	"math"
 	"math/bits"
 	"math/rand"
 	"net"
@@ -369,7 +370,34 @@ func c10NewSession(cname string, key, iv []byte, thr int, fragSeed int64) *c10Se
 	return s
 }
 
-func c10PktsString(ps []pk.Packet) string {
+// Packets on a line are "id:data;id:data;…". In ARGUMENTS data is a bx expression (harness/c07.go: hex, or a
+// compact description such as g<seed>.<len> for seeded incompressible bytes); in OBSERVATIONS data is
+// printed by dig (hex up to 40 bytes, otherwise "#<len>:<fnv1a-64>:<first 8 bytes>"). The driver expands
+// the same description and prints the same digest.
+
+// c10Desc remembers the compact description of payloads made by c10Gen, keyed by their first byte's address.
+var c10Desc = map[*byte]string{}
+
+// c10Gen makes n incompressible bytes (LCG, high byte) described as g<seed>.<n>.
+func c10Gen(c *Ctx, n int) []byte {
+	d := fmt.Sprintf("g%d.%d", c.R.Intn(1<<30), n)
+	b := bxEval(d)
+	if len(b) > 0 {
+		c10Desc[&b[0]] = d
+	}
+	return b
+}
+
+func c10DataArg(b []byte) string {
+	if len(b) > 0 {
+		if d, ok := c10Desc[&b[0]]; ok {
+			return d
+		}
+	}
+	return hx(b)
+}
+
+func c10PktsFmt(ps []pk.Packet, data func([]byte) string) string {
 	if len(ps) == 0 {
 		return "-"
 	}
@@ -380,10 +408,14 @@ func c10PktsString(ps []pk.Packet) string {
 		}
 		sb.WriteString(strconv.Itoa(int(p.ID)))
 		sb.WriteByte(':')
-		sb.WriteString(hx(p.Data))
+		sb.WriteString(data(p.Data))
 	}
 	return sb.String()
 }
+
+// c10PktsString: packets as an argument; c10PktsObs: packets as observed.
+func c10PktsString(ps []pk.Packet) string { return c10PktsFmt(ps, c10DataArg) }
+func c10PktsObs(ps []pk.Packet) string    { return c10PktsFmt(ps, dig) }
 
 func c10ParsePkts(s string) []pk.Packet {
 	if s == "-" {
@@ -393,10 +425,30 @@ func c10ParsePkts(s string) []pk.Packet {
 	for _, t := range strings.Split(s, ";") {
 		i := strings.IndexByte(t, ':')
 		id, _ := strconv.Atoi(t[:i])
-		out = append(out, pk.Packet{ID: int32(id), Data: unhx(t[i+1:])})
+		d := t[i+1:]
+		b := bxEval(d)
+		if len(b) > 0 && strings.ContainsAny(d, "grz") {
+			c10Desc[&b[0]] = d
+		}
+		out = append(out, pk.Packet{ID: int32(id), Data: b})
 	}
 	return out
 }
+
+// c10IDs: packet ids on both sides of every VarInt length class, and negative ones (5 bytes)
+var c10IDs = []int32{0, 1, 127, 128, 16383, 16384, 2097151, 2097152, 1<<22 - 1, 1 << 22, 1<<28 - 1, 1 << 28, math.MaxInt32, -1, math.MinInt32}
+
+func c10ID(c *Ctx) int32 {
+	switch c.R.Intn(8) {
+	case 0:
+		return int32(c.R.Uint32())
+	case 1, 2:
+		return c10IDs[c.R.Intn(len(c10IDs))]
+	}
+	return int32(c.R.Intn(0x80))
+}
+
+func c10IDLen(id int32) int { return len(leb32(id)) }
 
 // c10Conn sends pkts from one end and reads them at the other, interleaving writes and reads; the
 // receiving Packet value is reused. Emits one `conn` line and one `conn.wire` line.
@@ -425,10 +477,10 @@ func c10KeptString(tag string, ks []c10Kept) (list string, changed string) {
 	for i, k := range ks {
 		ps[i] = *k.p
 		if k.p.ID != k.snapID || !bytes.Equal(k.p.Data, k.snap) {
-			changed += fmt.Sprintf(" changed-was:%s%d=%s", tag, i, c10PktsString([]pk.Packet{{ID: k.snapID, Data: k.snap}}))
+			changed += fmt.Sprintf(" changed-was:%s%d=%s", tag, i, c10PktsObs([]pk.Packet{{ID: k.snapID, Data: k.snap}}))
 		}
 	}
-	return c10PktsString(ps), changed
+	return c10PktsObs(ps), changed
 }
 
 // keep: "reuse" (one receiving Packet value for all reads, a copy is kept), "own" (every read into its
@@ -943,19 +995,45 @@ func genC10(c *Ctx) {
 				if n < 0 {
 					n = 0
 				}
-				id := int32(c.R.Intn(0x80))
-				switch c.R.Intn(6) {
-				case 0:
-					id = int32(c.R.Uint32())
-				case 1:
-					id = int32(0x7f + c.R.Intn(3))
-				}
-				pkts = append(pkts, pk.Packet{ID: id, Data: c10Payload(c, n)})
+				pkts = append(pkts, pk.Packet{ID: c10ID(c), Data: c10Payload(c, n)})
 			}
 			fs := c.R.Int63n(1 << 40)
 			dir := []string{"ab", "ba"}[c.R.Intn(2)]
 			keep := []string{"own", "own", "mix", "reuse"}[c.R.Intn(4)]
 			c10Conn(c, cn, key, iv, thr, dir, fs, keep, pkts, true)
+		}
+		// ids on both sides of every VarInt length class, small payloads around the threshold
+		{
+			key := c10Bytes(c.R, 16)
+			var pkts []pk.Packet
+			for _, id := range c10IDs {
+				n := c.R.Intn(4)
+				if thr > 0 && c.R.Intn(2) == 0 {
+					n = thr - 6 + c.R.Intn(8)
+				}
+				if n < 0 {
+					n = 0
+				}
+				pkts = append(pkts, pk.Packet{ID: id, Data: c10Bytes(c.R, n)})
+			}
+			c10Conn(c, "aes", key, key, thr, []string{"ab", "ba"}[c.R.Intn(2)], c.R.Int63n(1<<40), "mix", pkts, false)
+		}
+		// incompressible payloads (deflate stored blocks) with idLen+len(Data) = k·32768 - 1, + 0, + 1, every
+		// one followed by a small packet
+		{
+			key := c10Bytes(c.R, 16)
+			var pkts []pk.Packet
+			for k := 1; k <= 4; k++ {
+				for _, d := range []int{-1, 0, 1} {
+					if d != 0 && (k+thr+int(c.Seed))%2 == 0 {
+						continue
+					}
+					id := []int32{int32(c.R.Intn(0x80)), int32(0x80 + c.R.Intn(0x3f00))}[c.R.Intn(2)]
+					pkts = append(pkts, pk.Packet{ID: id, Data: c10Gen(c, k*32768+d-c10IDLen(id))},
+						pk.Packet{ID: c10ID(c), Data: c10Bytes(c.R, c.R.Intn(5))})
+				}
+			}
+			c10Conn(c, "aes", key, key, thr, []string{"ab", "ba"}[c.R.Intn(2)], c.R.Int63n(1<<40), "own", pkts, false)
 		}
 		// a large packet, small ones below the threshold, then a compressed packet of more than 32 KiB:
 		// all kept / all into one reused Packet value (a destination with a history)
@@ -972,6 +1050,25 @@ func genC10(c *Ctx) {
 			}
 			c10Conn(c, "aes", key, key, thr, []string{"ab", "ba"}[c.R.Intn(2)], c.R.Int63n(1<<40), keep, pkts, false)
 		}
+	}
+
+	// near the protocol maximum (idLen+len(Data) = 2^21-200 .. 2^21), incompressible, followed by another
+	// packet: one session per threshold class on the quick tier
+	for i, thr := range []int{-1, 256, 0} {
+		if i == 2 && !c.Thorough() {
+			break
+		}
+		key := c10Bytes(c.R, 16)
+		id := int32(c.R.Intn(0x80))
+		ns := []int{1<<21 - c10IDLen(id) - c.R.Intn(150), 1<<21 - c10IDLen(id)}
+		var pkts []pk.Packet
+		pkts = append(pkts, pk.Packet{ID: 3, Data: c10Bytes(c.R, 7)},
+			pk.Packet{ID: id, Data: c10Gen(c, ns[c.R.Intn(2)])},
+			pk.Packet{ID: c10ID(c), Data: c10Bytes(c.R, 1+c.R.Intn(80))})
+		if c.Thorough() {
+			pkts = append(pkts, pk.Packet{ID: id, Data: c10Gen(c, 1<<21-c10IDLen(id)-170-c.R.Intn(30))}, pk.Packet{ID: 9, Data: c10Bytes(c.R, 3)})
+		}
+		c10Conn(c, "aes", key, key, thr, []string{"ab", "ba"}[i%2], 0, "own", pkts, false)
 	}
 
 	genC10b(c)
